@@ -1,5 +1,6 @@
 import BoaVerif.Common.Proto
 import BoaVerif.C19.Model
+import BoaVerif.C19.Prec
 open BoaVerif BoaVerif.Proto BoaVerif.C19
 
 def hex4 (n : Nat) : String :=
@@ -13,6 +14,36 @@ def parseUnits : List Char → Option (List Nat)
     | _, _, _, _, _ => none
   | _ => none
 
+namespace PrecDrv
+open BoaVerif.C19.Prec
+
+def pTok (t : String) : Option Tok :=
+  match t with
+  | "+" => some (.op .add) | "-" => some (.op .sub) | "*" => some (.op .mul) | "/" => some (.op .div)
+  | "(" => some .lp | ")" => some .rp
+  | n => n.toNat?.map .num
+
+def opName : Op → String | .add => "add" | .sub => "sub" | .mul => "mul" | .div => "div"
+
+def shape : E → String
+  | .num n => s!"(num {n})"
+  | .neg e => s!"(neg {shape e})"
+  | .paren e => s!"(paren {shape e})"
+  | .bin o l r => s!"(bin {opName o} {shape l} {shape r})"
+
+def tokStr : Tok → String
+  | .num n => toString n | .op .add => "+" | .op .sub => "-" | .op .mul => "*" | .op .div => "/" | .lp => "(" | .rp => ")"
+
+/-- `prec <tokens…>`: the tree the model's parser builds, and whether printing and parsing it again is the identity -/
+def run (toks : List String) : String :=
+  match toks.mapM pTok with
+  | none => "bad-op"
+  | some ts =>
+    match parse ts with
+    | none => "reject"
+    | some e => "tree " ++ shape e ++ (if pr e == ts && parse (pr e) == some e then " fix" else " NOFIX")
+end PrecDrv
+
 def step (_ : Unit) (toks : List String) : Unit × String :=
   match toks with
   | ["print", hex] =>
@@ -24,6 +55,7 @@ def step (_ : Unit) (toks : List String) : Unit × String :=
          | [] => none
        ((), String.join (p.map hex4) ++ (if back == some units then " rt" else " NO-ROUNDTRIP"))
      | none => ((), "bad-op"))
+  | "prec" :: rest => ((), PrecDrv.run rest)
   | _ => ((), "bad-op")
 
 def main : IO Unit := serve step ()
